@@ -72,6 +72,9 @@ GUARDED = {   # templates inside the domain where the theorem and the property h
     "class_header_meta": "class K(pb(1), pb(2), metaclass=pm(5)):\n    x = p(6)",
     "class_header_meta_kw": "class K(pb(1), kw=p(2), metaclass=pm(3), kw2=p(4), **pk(5)):\n    x = p(6)",
     "class_header_meta_only": "class K(metaclass=pm(1)):\n    x = p(2)\nclass L(K, kw=p(3)):\n    y = p(4)",
+    # no bases at all: the keywords still in the order written (a keyword BEFORE `metaclass=`, a `**mapping` before it)
+    "class_header_kw_meta_nobase": "class K(kw=p(1), metaclass=pm(2), kw2=p(3)):\n    x = p(4)",
+    "class_header_starkw_meta_nobase": "class K(**pk(1), metaclass=pm(2)):\n    x = p(3)\nclass L(kw=p(4), **pk(5), metaclass=pm(6)):\n    pass",
     "if_empty_body_else": "if p(1):\n    []\nelse:\n    p(2)\nif p(3):\n    ()\nelif p(4):\n    p(5)\nelse:\n    p(6)",
     "if_bare_return_else": "def f(v):\n    if p(v):\n        return\n    else:\n        p(2)\nf(1)\nf(0)",
     "if_bare_continue_else": "for k in (1, 0, 3):\n    if p(k):\n        continue\n    elif p(8):\n        p(9)\n    else:\n        p(10)",
